@@ -615,7 +615,54 @@ func (r *Run) strEqual(x, y StrV) BoolV {
 	if tx.String() == ty.String() {
 		return BoolV{C: true}
 	}
+	// both sides made of literals and newline-free atoms: equal iff they have the same number of lines and are equal
+	// line by line (turns the word equations of "is this output a permutation of these blocks" into atom equalities
+	// the solver decides at once)
+	if lx, ok := r.linesOf(x); ok {
+		if ly, ok := r.linesOf(y); ok && (len(lx) > 1 || len(ly) > 1) {
+			if len(lx) != len(ly) {
+				return BoolV{C: false}
+			}
+			res := BoolV{C: true}
+			for i := range lx {
+				e := r.strEqual(lx[i], ly[i])
+				if e.S == nil && !e.C {
+					return BoolV{C: false}
+				}
+				res = boolAnd(res, e)
+			}
+			return res
+		}
+	}
 	return BoolV{S: mkEq(tx, ty)}
+}
+
+// linesOf splits s at its literal newlines; ok only if every atom of s is known to be newline-free and s has no
+// symbolic byte.
+func (r *Run) linesOf(s StrV) ([]StrV, bool) {
+	lines := []StrV{{}}
+	for _, g := range s.Segs {
+		switch {
+		case g.Byte != nil:
+			return nil, false
+		case g.Atom != nil:
+			if !r.nlFree[g.Atom.Name] {
+				return nil, false
+			}
+			lines[len(lines)-1] = concatStr(lines[len(lines)-1], StrV{Segs: []Seg{g}})
+		default:
+			parts := strings.Split(g.Lit, "\n")
+			for i, p := range parts {
+				if i > 0 {
+					lines = append(lines, StrV{})
+				}
+				if p != "" {
+					lines[len(lines)-1] = concatStr(lines[len(lines)-1], strLit(p))
+				}
+			}
+		}
+	}
+	return lines, true
 }
 
 func (r *Run) strLen(s StrV) IntV {
